@@ -47,10 +47,20 @@ def _fully_specified(r):
 
 
 def gen_pair(tp: S.Tape, classes=("MG", "SMG", "CRG", "SCRG", "SMG", "SCRG"),
-             sources=(4, 6, 2, 2, 1)):
-    src = ("independent", "mutant", "ring", "big", "crossclass")[
-        tp.weighted(list(sources))]
+             sources=(4, 6, 2, 2, 1, 1)):
+    sources = list(sources) + [0] * (6 - len(sources))
+    src = ("independent", "mutant", "ring", "big", "crossclass",
+           "regular-roles")[tp.weighted(sources)]
     cls = tp.pick(list(classes))
+    if src == "regular-roles":
+        rcls = tp.pick([c for c in classes if c in ("CRG", "SCRG")]
+                       or ["CRG"])
+        m1, m2, name = S.regular_role_pair(tp, rcls)
+        rb, _ = S.variant_from(m2, list(S.renaming(tp, m2.atoms).items()),
+                               tp.below(1 << 30))
+        ra, _ = S.variant_from(m1, list(S.renaming(tp, m1.atoms).items()),
+                               tp.below(1 << 30))
+        return {"src": src, "a": ra, "b": rb, "kind": name}
     if src == "independent":
         n = 1 + tp.below(6)
         alpha = S.draw_alphabet(tp, 2)
